@@ -1,0 +1,99 @@
+//! Replay / witness tests used by /verif (cargo feature `verif`).
+//!
+//! Each test drives the *real* library code with a concrete input that a failed proof
+//! obligation points at, and checks the executable form of that obligation.  They are not
+//! part of the ordinary test suite (the whole file is compiled only with `--features verif`).
+#![cfg(feature = "verif")]
+
+use mini_mcmc::core::ChainRunner;
+use mini_mcmc::distributions::{Categorical, Discrete, IsotropicGaussian, Proposal, Target};
+use mini_mcmc::gibbs::GibbsSampler;
+use mini_mcmc::metropolis_hastings::MetropolisHastings;
+use rand::rngs::SmallRng;
+use rand::{Rng, SeedableRng};
+
+/// A seed whose first `f32` uniform is exactly 0.0 (probability 2^-24 per seed; found by scanning).
+fn seed_with_first_uniform_zero() -> u64 {
+    for s in 0u64..200_000_000 {
+        let mut r = SmallRng::seed_from_u64(s);
+        if r.random::<f32>() == 0.0 {
+            return s;
+        }
+    }
+    panic!("no seed with a zero first uniform found in the scanned range");
+}
+
+/// C16.never_zero_prob — a category of probability zero must never be returned, also for r == 0.
+#[test]
+fn c16_never_zero_prob_r_equals_zero() {
+    let s = seed_with_first_uniform_zero();
+    let mut cat = Categorical::<f32>::with_rng(vec![0.0, 1.0, 1.0], SmallRng::seed_from_u64(s));
+    let k = cat.sample();
+    assert!(
+        cat.probs[k] > 0.0,
+        "seed {s}: uniform variate 0.0 selected category {k} whose probability is {}",
+        cat.probs[k]
+    );
+}
+
+#[derive(Clone)]
+struct Flat;
+impl Target<f64, f64> for Flat {
+    fn unnorm_logp(&self, _p: &[f64]) -> f64 {
+        0.0
+    }
+}
+
+/// C07 (total for all seeds) — seeding with the largest seed must not fail.
+#[test]
+fn c07_mh_seed_u64_max() {
+    let mh = MetropolisHastings::new(Flat, IsotropicGaussian::<f64>::new(1.0), vec![vec![0.0]; 3]);
+    let mut mh = mh.seed(u64::MAX);
+    let out = mh.run(2, 0).unwrap();
+    assert_eq!(out.shape(), &[3, 2, 1]);
+}
+
+#[derive(Clone)]
+struct Zero;
+impl mini_mcmc::distributions::Conditional<f64> for Zero {
+    fn sample(&mut self, _i: usize, _g: &[f64]) -> f64 {
+        0.0
+    }
+}
+
+#[test]
+fn c07_gibbs_seed_u64_max() {
+    let g = GibbsSampler::new(Zero, vec![vec![1.0]; 3]).set_seed(u64::MAX);
+    assert_eq!(g.chains.len(), 3);
+}
+
+/// C08 — chains of one MH sampler must not share their proposal stream.
+#[test]
+fn c08_mh_chains_distinct_proposal_streams_seeded() {
+    let mut mh = MetropolisHastings::new(Flat, IsotropicGaussian::<f64>::new(1.0), vec![vec![0.0, 0.0]; 3]).seed(42);
+    let x = vec![0.0, 0.0];
+    let a = mh.chains[0].proposal.sample(&x);
+    let b = mh.chains[1].proposal.sample(&x);
+    let c = mh.chains[2].proposal.sample(&x);
+    assert!(a != b && b != c && a != c, "chains received identical proposal noise: {a:?} {b:?} {c:?}");
+}
+
+#[test]
+fn c08_mh_chains_distinct_proposal_streams_unseeded() {
+    let mut mh = MetropolisHastings::new(Flat, IsotropicGaussian::<f64>::new(1.0), vec![vec![0.0, 0.0]; 2]);
+    let x = vec![0.0, 0.0];
+    let a = mh.chains[0].proposal.sample(&x);
+    let b = mh.chains[1].proposal.sample(&x);
+    assert!(a != b, "chains received identical proposal noise: {a:?} {b:?}");
+}
+
+/// C08 — within a chain the proposal generator is not seeded like the acceptance generator,
+/// and C07 — a seeded sampler is reproducible including its proposal noise.
+#[test]
+fn c07_mh_seeded_run_is_reproducible() {
+    let run = || {
+        let mut mh = MetropolisHastings::new(Flat, IsotropicGaussian::<f64>::new(1.0), vec![vec![0.0, 0.0]; 2]).seed(7);
+        mh.run(5, 2).unwrap()
+    };
+    assert_eq!(run(), run());
+}
